@@ -336,10 +336,14 @@ fn one_vector(c: &mut Case, v: &Variant, len: usize, p: Pat, tail: Tail, nrand: 
     let q = Q { e: Env { m: &m, what: &what }, pos: &pos, idx: &idx, spare_bit: v.name.contains("Rank9") && bv.as_ref().len() * 64 > sux::traits::BitLength::len(&bv) };
     // the ranking primitive of the bit vector itself (what the counters of every structure are
     // completed with): any valid hint, however far back, gives the prefix count
-    if len > 0 && c.rng().random_range(0..8u32) == 0 {
+    if len > 0 && (len >= 1088 || c.rng().random_range(0..8u32) == 0) {
         use sux::traits::RankHinted;
         let r = catch(|| {
-            for &p in pos.iter().filter(|&&p| p < len).take(40) {
+            // the largest positions first: far hints need long vectors
+            let mut ps: Vec<usize> = pos.iter().copied().filter(|&p| p < len).collect();
+            ps.sort_unstable_by(|a, b| b.cmp(a));
+            ps.dedup();
+            for &p in ps.iter().take(60) {
                 let hw = match p % 3 {
                     0 => 0,
                     1 => p / 64,
